@@ -1,7 +1,7 @@
 (* Props/C04.v -- property C04: jumps, calls, returns and the stack follow conditions and addresses exactly.
    The clauses below are theorems about the specification's exec, for every F, B, PC, SP (wrap included: all
    address arithmetic is u16 = mod 65536); C04_tie states that the real code is that specification. *)
-From Z80V Require Import Proofs.SpecFacts Proofs.RoundTrip Proofs.Iter.
+From Z80V Require Import Proofs.SpecFacts Proofs.RoundTrip Proofs.Refresh Proofs.DjnzLoop Proofs.Iter.
 
 Theorem C04_conditions : forall f,
   cond NZ f = negb (Z.testbit f 6) /\ cond Z_ f = Z.testbit f 6 /\
@@ -92,3 +92,23 @@ Theorem C04_call_ret_round_trip : forall cpu, WF cpu -> g_Memory cpu = UserMem -
   ram (g_W cpu') = upd (upd (ram (g_W cpu)) sp1 (hi (u16 (u16 (u16 (pc + 1) + 1) + 1)))) sp2 (lo (u16 (u16 (u16 (pc + 1) + 1) + 1))).
 Proof. intros cpu H. cbv zeta. rewrite iter_ok by exact H. exact (call_ret_round_trip impl_unspec cpu H). Qed.
 Print Assumptions C04_call_ret_round_trip.
+
+(* ---- a whole DJNZ loop (the delay idiom  L: DJNZ L), for the generated Step: from B = k+1 it takes exactly k+1 Steps,
+   from B = 0 exactly 256; every Step but the last goes back to the instruction itself (displacement -2 measured from the
+   end of the instruction, also when the instruction lies across FFFFh/0000h), the last one falls through; only B, PC
+   and the refresh counter change (djnz_same lists what is kept: A, F, C, DE, HL, the alternate set, IX, IY, SP,
+   IFF1/2, IM, I, memory, the pending-request slot) ---- *)
+Theorem C04_djnz_loop : forall k cpu, djnz_at cpu -> g_BC_Hi cpu = Z.of_nat k + 1 -> Z.of_nat k <= 254 ->
+  let cpu' := iter (S k) cpu in
+  djnz_same cpu cpu' /\ g_BC_Hi cpu' = 0 /\ g_PC cpu' = u16 (u16 (g_PC cpu + 1) + 1) /\
+  g_IR_Lo cpu' = ticks (S k) (g_IR_Lo cpu).
+Proof. exact djnz_loop_gen. Qed.
+Print Assumptions C04_djnz_loop.
+Theorem C04_djnz_loop_from_zero : forall cpu, djnz_at cpu -> g_BC_Hi cpu = 0 ->
+  let cpu' := iter 256 cpu in
+  djnz_same cpu cpu' /\ g_BC_Hi cpu' = 0 /\ g_PC cpu' = u16 (u16 (g_PC cpu + 1) + 1) /\
+  g_IR_Lo cpu' = ticks 256 (g_IR_Lo cpu).
+Proof. exact djnz_loop_256_gen. Qed.
+Print Assumptions C04_djnz_loop_from_zero.
+Example C04_djnz_premises_hold : djnz_at djnz_demo /\ g_BC_Hi djnz_demo = Z.of_nat 2 + 1.
+Proof. exact djnz_demo_premises. Qed.
